@@ -114,7 +114,8 @@ def validate_mux_traces(obs, by, tag):
         late = str(c.get("fam", "")).startswith("late-accept")
         for d in ("h2p", "p2h"):
             est_ids = [e["id"] for e in c["ests"] if e["dir"] == d]
-            if not est_ids or len(est_ids) > 6:
+            # (the muxer's hook points use 0 for "no id": a case that brokers id 0 is judged by its outcomes only)
+            if not est_ids or len(est_ids) > 6 or 0 in est_ids:
                 continue
             rows, k = project_mux_trace(evs, d, est_ids)
             if len(rows) > 2:
